@@ -1008,13 +1008,20 @@ def search(prop: str, chk, rng, tier: str) -> None:
 
 
 def replay(rp: dict) -> int:
-    """Re-run one replay against the real code alone. 1 = the failure reproduces."""
+    """Re-run one replay against the real code alone. 1 = the recorded failure reproduces."""
     spec, prop = rp["spec"], rp["prop"]
     w, rec, _ = run_case(spec)
-    bad = oracle_for(prop, w, rec)
-    for b in bad:
-        print(f"reproduced: {signature(prop, b)}")
+    sigs = [signature(prop, b) for b in oracle_for(prop, w, rec)]
+    want = rp.get("signature")
+    hit = [s for s in sigs if want is None or s == want]
+    for s in hit:
+        print(f"reproduced: {s}")
+    for s in sigs:
+        if s not in hit:
+            print(f"note: another failing class on this input: {s}")
     if rec["placements"] is not None:
         for d in real_decisions(w, rec):
             print(f"  decision: {d}")
-    return 1 if bad else 0
+    elif rec["err"]:
+        print(f"  schedule() raised {rec['err']}")
+    return 1 if hit else 0
